@@ -252,7 +252,7 @@ def run_pipelined(case, chooser):
         # every path lookup of the backend first waits for an executor job (an environment event)
         spy = backends.SpyControl()
         spy.op_job = {"exists", "is_file", "is_dir", "stat"}
-    rig = Rig(chooser=chooser, tree={"old": OLD, "other": b"OTHER-FILE"}, spy=spy, n_sessions=1,
+    rig = Rig(chooser=chooser, tree={"old": OLD, "other": b"OTHER-FILE", "sub": {"old": b"ANOTHER-OLD-IN-SUB"}}, spy=spy, n_sessions=1,
               backend="memory" if bname == "jobs" else bname, server_kwargs={"block_size": 3, "wait_future_timeout": 2})
     problems = []
     try:
@@ -260,7 +260,10 @@ def run_pipelined(case, chooser):
         w = rig.world
         if spy is not None:
             spy.armed = False
-        for e in ("@connect", "USER anonymous", "EPSV", "@data"):
+        # (late: the data connection is made only after the whole segment has been dealt with - the file meant is the
+        # one the name stood for when the transfer command was accepted)
+        late = case.get("late", False)
+        for e in ("@connect", "USER anonymous", "EPSV") + (() if late else ("@data",)):
             rig.ev(0, e)
         if spy is not None:
             spy.armed = True
@@ -268,6 +271,9 @@ def run_pipelined(case, chooser):
         lines = [f"REST {k}", f"{op} old", after]
         chooser.active = True
         s0.send(("\r\n".join(lines) + "\r\n").encode())
+        if late:
+            w.settle(0)
+            rig.ev(0, "@data")
         w.settle(5)
         data = b"NEWDATA"
         if op in ("STOR", "APPE") and s0.data is not None:
@@ -288,6 +294,8 @@ def run_pipelined(case, chooser):
             if snap.get("/old") != want:
                 problems.append({"kind": "pipelined-restart-stored-bytes", "got": repr(snap.get("/old"))[:80],
                                  "want": repr(want), "sent": lines, "codes": codes[-5:]})
+        if snap.get("/sub/old") != b"ANOTHER-OLD-IN-SUB":
+            problems.append({"kind": "pipelined-restart-other-file-changed", "got": repr(snap.get("/sub/old"))[:80]})
         if snap.get("/other") != b"OTHER-FILE":
             problems.append({"kind": "pipelined-restart-other-file-changed", "got": repr(snap.get("/other"))[:80]})
         return {"problems": problems, "trace": report.fp(w.net.trace), "events": w.net.n_events,
@@ -446,6 +454,10 @@ def grid(tier):
             for k in (0, 4):
                 for after in ("RETR missing", "STOR d/x/y", "NOOP", "REST 2", "PWD", "APPE missing/z"):
                     c = {"pipelined": True, "op": op, "k": k, "after": after, "backend": backend}
+                    items.append((c, 1 if tier == "quick" else 2, ["order"], 3000 if tier == "quick" else 60000))
+                # ... a change of the working directory behind a transfer by relative name, the data connection made late
+                for after in ("CWD sub", "CDUP", "PWD"):
+                    c = {"pipelined": True, "op": op, "k": k, "after": after, "backend": backend, "late": True}
                     items.append((c, 1 if tier == "quick" else 2, ["order"], 3000 if tier == "quick" else 60000))
     return items
 
